@@ -197,6 +197,13 @@ class Pipe:
         if k == 'fold':
             self.acc = rv
             return self.start_item(ex, st)
+        if k == 'cmp':       # min_by / max_by comparator result (std: min_by keeps the first of equal minima, max_by the last of equal maxima)
+            if not isinstance(rv, Enum): raise Unsupported('comparator result %r' % (rv,))
+            d = rv.disc
+            take = (d == BitVecVal(1, d.size())) if self.mode == 'min_by' else Not(d == BitVecVal(1, d.size()))
+            def yes(p, ex, st):
+                p.acc = p.cur; return p.start_item(ex, st)
+            return self.branch(ex, st, take, yes, lambda p, ex, st: p.start_item(ex, st))
         raise Unsupported('pipeline step ' + str(k))
 
     def _keep(self, ex, st):
@@ -232,6 +239,11 @@ class Pipe:
         if m == 'fold':
             self.await_kind = 'fold'
             return self._call(ex, st, self.data, [self.acc, self.cur])
+        if m in ('min_by', 'max_by'):
+            if self.acc is None:
+                self.acc = self.cur; return self.start_item(ex, st)
+            self.await_kind = 'cmp'
+            return self._call(ex, st, self.data, [box(self.acc), box(self.cur)])
         raise Unsupported('iterator consumer ' + m)
 
     def consume_pred(self, ex, st, b):
@@ -274,6 +286,7 @@ class Pipe:
         if m == 'all': return BoolVal(True)
         if m == 'for_each': return []
         if m == 'fold': return self.acc
+        if m in ('min_by', 'max_by'): return some(self.acc) if self.acc is not None else none()
         if m == 'sum_f64':
             s = z3.FPVal(0.0, z3.Float64())     # std: f64::sum folds from -0.0?  (0.0 + x keeps x's value for all x except -0.0 sign) — see note in models list
             s = z3.FPVal(-0.0, z3.Float64())
@@ -519,6 +532,14 @@ def it_pred(ex, st, callee, args):
     if not isinstance(it, Iter): return NotImplemented
     mode = re.search(r'as Iterator>::(\w+)::', callee).group(1)
     return run_pipe(ex, st, iter_slot(ex, p), mode, args[1])
+
+
+@h(r'^<.* as Iterator>::(min_by|max_by)::<.*>$')
+def it_min_by(ex, st, callee, args):
+    it = ex.deref(args[0])
+    if not isinstance(it, Iter): return NotImplemented
+    mode = re.search(r'as Iterator>::(min_by|max_by)::', callee).group(1)
+    return run_pipe(ex, st, box(it), mode, args[1])
 
 
 @h(r'^<.* as Iterator>::fold::<.*>$')
